@@ -104,10 +104,30 @@ def serve(ctx, project, release, generation, token=0):
     return {'log': _drain(), 'generation': key[2], 'nstates': len(instance.tag.states)}
 
 
+def session(ctx, project, release, generation, token, then, token2):
+    """Two actions through ONE instance (a launcher / runner that is kept around): re-train from the pinned
+    generation, then load through the very same instance object."""
+    os.environ['LC_TOKEN'] = str(token)
+    _drain()
+    instance = _instance(ctx, project, release, generation)
+    _runner(instance, token).train()
+    first = _drain()
+    fresh = _instance(ctx, project, release, None)
+    trained = {'log': first, 'generation': int(fresh._generation.key), 'nstates': len(fresh.tag.states)}  # pylint: disable=protected-access
+    os.environ['LC_TOKEN'] = str(token2)
+    runner = _runner(instance, token2)
+    if then == 'apply':
+        runner.apply()
+    else:
+        runner.eval_perftrack()
+    loaded = {'log': _drain(), 'generation': int(instance._generation.key), 'nstates': len(instance.tag.states)}  # pylint: disable=protected-access
+    return {'train': trained, 'load': loaded}
+
+
 def generations(ctx, project, release):
     directory = _directory(ctx)
     return [int(g) for g in directory.get(project).get(release).list()]
 
 
 OPS = {'publish': publish, 'train': train, 'apply': apply, 'perftrack': perftrack, 'serve': serve,
-       'generations': generations}
+       'generations': generations, 'session': session}
